@@ -29,17 +29,28 @@ RULE = ('random portfolios incl. periodic, coarse-frequency, scaled, structured 
         '0..4 samples, LP and MIP); (e) in every third generic case, every second case of (c) and every case of (d) each result (mono, robust, split, relaxed, SLP) is read out '
         '2..4 more times in a seed-drawn sequence of io.extract_output without / with prices, Asset.dcf of every asset called directly, Storage.fill_level, and the '
         'statement is evaluated on every table against the solution as optimize returned it; '
-        'non-trivial = solved scenario with >= 2 assets having non-zero cash flow (relaxed: a fractional boolean with non-zero cost; SLP: non-zero cash flow on sampled future variables); distinct by scenario hash')
+        '(f) one case per 4 (comp/c04call.py): the forms in which optimize accepts its arguments - generic portfolios and those of (c), monolithic and (every second) split '
+        'on the same objects; per problem 3..4 calls (mono) / 2..3 calls (split) in forms drawn from the seed: the target \'value\' / \'robust\' in any letter case '
+        '(lower, upper, capitalised, letter by letter) or left at its default, the cost samples (from perturbed prices, i.e. different from the cost vector of the problem) as list, '
+        'tuple or 2-d array (also next to the value target), 0..5 leading arguments positionally, interface spelled out or defaulted, an explicit solver among the installed exact ones '
+        '(LP: SCIPY, CLARABEL; MIP: SCIPY, SCIP), make_soft_problem as True / 1 / numpy bool / False positionally or by keyword; split problems: every form but the robust target '
+        '(unless there is a single interval); the robust run of the other streams draws its call form (letter case, container, positional) from the seed as well; '
+        'non-trivial = solved scenario with >= 2 assets having non-zero cash flow (relaxed: a fractional boolean with non-zero cost; SLP: non-zero cash flow on sampled future variables; '
+        'call forms: >= 2 assets with cash flow and a solved call in another form than the documented plain one); distinct by scenario hash')
 ASSUMPTIONS = ['oracle tolerance 1e-6 * max(1,|value|, sum|DCF| over the filled cells)',
                'the sum of the DCF table is read as out["DCF"].sum().sum() (pandas skips empty cells); an empty / non-finite cell counts as a '
                'violation by itself only inside the asset\'s own start/end',
                'the optimal values / the reported value the statement speaks about are those `optimize` returned: a copy of x, value and cost vector is taken when '
                'optimize returns, before anything is read out, and every table (first or later) is compared with that copy',
+               'call forms: only forms the code accepts are generated - solver names and the interface are compared as written (no letter-case variants), a split problem hands the '
+               'same samples to every interval (robust target only with a single interval), the ortools interface is not installed; a call whose cost samples '
+               '(Portfolio.create_cost_samples) do not have the size of the problem raises in cvxpy and counts as not evaluated (feature call-error; sizes of cost samples are C17\'s statement)',
                'SLP results: an asset\'s own variables are its block of the original problem plus the copies of those of its variables whose first mapping row '
                '(original problem) lies at or after start_future, at the positions make_slp documents (n + s * n_f + rank)']
 EXPLANATION = ('theorems about the model of Asset.dcf and the assembly; correspondence on captured problems; oracle: value vs DCF table vs -c_a.x_a with asset blocks taken from the sizes '
                'of the captured asset problems (independent of the mapping), on the result of every way the problem is built and solved: one go, robust, split, split re-optimised '
-               'with pinned intervals (fix_time_window), reordered, relaxed (make_soft_problem; the model\'s DCF read-out of the relaxed solution is tied to the real table as well), '
+               'with pinned intervals (fix_time_window), reordered, called in every accepted form of the arguments (letter case of the target, container of the samples, positional / keyword, '
+               'explicit interface / solver, truthy forms of make_soft_problem; comp/c04call.py), relaxed (make_soft_problem; the model\'s DCF read-out of the relaxed solution is tied to the real table as well), '
                'two-stage SLP; also for problems and intervals without any free variable; and of every way it is read out: the same (portfolio, problem, result) objects '
                'read out repeatedly (output tables without / with prices, per-asset Asset.dcf after the tables, fill levels in between), each table compared with the copy of the '
                'solution taken when optimize returned (value = sum of the table = -c.x, per asset and in total; the value the result object carries is still the returned one). '
@@ -111,6 +122,12 @@ def scenarios(seed, tier):
     # run_from_json, set_param): comp/entry.py
     from ..comp import entry as EN
     yield from EN.stream(seed, n // 12, ('io', 'io_split', 'json'), tmax=10 if tier == 'quick' else 16)
+    # the forms in which optimize accepts its arguments (target in any letter case, samples as list / tuple / array, arguments
+    # positionally or by keyword, interface / solver spelled out, make_soft_problem in its truthy forms): comp/c04call.py
+    from ..comp import c04call as CF
+    rnd5 = random.Random(seed * 7919 + 4 + 1700017)
+    for i in range(n // 4):
+        yield 'call%d' % i, CF.gen_case(random.Random(rnd5.getrandbits(48)), tmax=10 if tier == 'quick' else 16)
 
 
 def run_case(scn, drv):
@@ -119,6 +136,9 @@ def run_case(scn, drv):
         return EN.run_stream_case(scn, ('value_accounting',))
     from ..comp import c04gen as G
     from ..comp import c04read as R
+    from ..comp import c04call as CF
+    if scn.get('stream') == 'call-forms':
+        return CF.run_case(scn, drv)
     if scn.get('_stream') == 'slp':
         # the result of the two-stage programme read out several times, C04's statement on every table (per asset: own variables
         # plus the copies of its future ones); the tie of makeSlp and the other SLP oracles belong to C17
@@ -173,17 +193,12 @@ def run_case(scn, drv):
         # robust target over cost samples from perturbed prices (LP and MIP alike): reported value = sum of the DCF table
         try:
             rr = random.Random(scn['robust_seed'])
-            samples = []
-            for _ in range(rr.choice([1, 2, 3])):
-                ps = {}
-                for k, v in rec['prices'].items():
-                    v = np.asarray(v, dtype=float)
-                    ps[k] = v + np.array([gen.q8(rr, -6, 6) for _ in range(len(v))]) if str(k).startswith('p') else v.copy()
-                samples.append(ps)
+            cs = CF.cost_samples(rec, rr)
+            # the call in a form drawn from the seed (letter case of the target, container of the samples, positional / keyword)
+            form = CF.draw_form(random.Random(scn['robust_seed'] + 7), robust=True, mip=pf.is_mip(rec['op']), soft=False)
             with impl.Quiet():
-                cs = rec['portf'].create_cost_samples(samples, rec['tg'])
                 op_r = rec['portf'].setup_optim_problem(rec['prices'], rec['tg'])
-                res_r = op_r.optimize(target='robust', samples=cs)
+            res_r = CF.call_optimize(op_r, form, cs)
             r['evaluated'] += 1
             if not isinstance(res_r, str):
                 import eaopack as eao
@@ -191,8 +206,12 @@ def run_case(scn, drv):
                 with impl.Quiet():
                     out_r = eao.io.extract_output(rec['portf'], op_r, res_r, rec['prices'])
                 feats.append('robust-mip' if pf.is_mip(op_r) else 'robust-lp')
+                feats.extend(CF.form_features(form, 'robust'))
                 rec_r = {'out': out_r, 'res': res_r, 'snap': snap_r, 'op': op_r, 'portf': rec['portf'], 'tg': rec['tg'], 'prices': rec['prices']}
-                r['violations'] += G.orc_value_accounting(rec_r, 'robust', pf.asset_blocks(rec))
+                vr = G.orc_value_accounting(rec_r, 'robust [optimize(%s)]' % CF.form_tag(form), pf.asset_blocks(rec))
+                for w in vr:
+                    w['facts'].update({'mode': 'robust', 'call_form': dict(form)})
+                r['violations'] += vr
                 if reads is not None and not r['violations']:
                     v, f = R.read_sequence(rec_r, 'robust', pf.asset_blocks(rec), reads + 2)
                     r['violations'] += v
